@@ -160,6 +160,13 @@ func (n *constructorNode) Call(c containerStore) (err error) {
 		}
 	}
 
+	if n.called {
+		// Building the arguments ran this constructor already: a decorator
+		// of one of its dependencies depends, in turn, on one of its
+		// results. Its values are in the container; never run it twice.
+		return nil
+	}
+
 	if n.callback != nil {
 		start := c.clock().Now()
 		// Wrap in separate func to include PanicErrors
